@@ -316,6 +316,9 @@ def is_consistent_valuation_profile(
       item_from_profile = ranked_profile[agent, item_rank]
       if item_from_valuation_profile == item_from_profile:
         continue
+      elif np.isnan(valuation_profile[agent, item_from_profile]) and np.isnan(valuation_profile[agent, item_from_valuation_profile]):
+        # Both items are unranked / unvalued: the two sorts may list them in any order.
+        continue
       elif np.allclose(valuation_profile[agent, item_from_profile], valuation_profile[agent, item_from_valuation_profile]):
         continue
       return False
